@@ -299,7 +299,8 @@ def run_shard(spec):
         idx = 0
         for k in range(spec['schemas']):
             for _ in range(20):
-                sch = S.random_schema(random.Random(rng.random()), ntypes=rng.randint(4, 12))
+                # shards that also build the C++ back-ends stay inside what cpp_full documents (one array per sizer)
+                sch = S.random_schema(random.Random(rng.random()), ntypes=rng.randint(4, 12), cpp_full=spec['cpp'])
                 if len(sch.defs) >= 3:
                     break
             for arrangement in (ARRANGEMENTS if not spec.get('extra') else [spec['extra']['arrangement']]):
